@@ -194,9 +194,9 @@ func runScript(c *Case) lib.Result {
 	}
 	raws := map[int]rawSlice{} // the caller's slice behind a raw / alias unit
 	ctxs := map[int]context.Context{}
-	spec := map[int][]int{}    // the property's reading: inherited ++ designated, fixed at creation
-	hasMgr := map[int]bool{}   // a manager exists (some handler or some global)
-	infOf := map[int]int{}     // run info id of the unit
+	spec := map[int][]int{}  // the property's reading: inherited ++ designated, fixed at creation
+	hasMgr := map[int]bool{} // a manager exists (some handler or some global)
+	infOf := map[int]int{}   // run info id of the unit
 	var order []int
 	toH := func(ids []int) []callbacks.Handler {
 		out := make([]callbacks.Handler, len(ids))
@@ -210,7 +210,8 @@ func runScript(c *Case) lib.Result {
 	class, detail := watchdog(20*time.Second, func() {
 		installGlobals(c, hs)
 		defer callbacks.InitCallbackHandlers(nil)
-		for _, op := range c.Ops {
+		for opIdx, op := range c.Ops {
+			pay := fmt.Sprintf("p%d|", opIdx+1) // the payload of this operation (On): identifies the call
 			switch op.Op {
 			case "raw":
 				back := make([]callbacks.Handler, op.Off+len(op.Hs)+op.Spare)
@@ -287,13 +288,13 @@ func runScript(c *Case) lib.Result {
 				ctx := ctxs[op.U]
 				switch op.T {
 				case 0:
-					callbacks.OnStart(ctx, "p")
+					callbacks.OnStart(ctx, pay)
 				case 1:
-					callbacks.OnEnd(ctx, "p")
+					callbacks.OnEnd(ctx, pay)
 				case 2:
-					callbacks.OnError(ctx, errors.New("e"))
+					callbacks.OnError(ctx, errors.New("payload:"+pay))
 				case 3, 4:
-					sr := schema.StreamReaderFromArray([]string{"a", "b", "c"})
+					sr := schema.StreamReaderFromArray([]string{pay, "b", "c"})
 					var nsr *schema.StreamReader[string]
 					if op.T == 3 {
 						_, nsr = callbacks.OnStartWithStreamInput(ctx, sr)
@@ -312,8 +313,8 @@ func runScript(c *Case) lib.Result {
 						b.WriteString(x)
 					}
 					nsr.Close()
-					if b.String() != "abc" {
-						fail("stream payload: the flow's copy reads %q after the handlers got theirs, want \"abc\"", b.String())
+					if b.String() != pay+"bc" {
+						fail("stream payload: the flow's copy reads %q after the handlers got theirs, want %q", b.String(), pay+"bc")
 					}
 					if !waitPending(s, 5*time.Second) {
 						fail("a handler's copy of the stream never ended")
@@ -345,8 +346,11 @@ func runScript(c *Case) lib.Result {
 					if e.Name != fmt.Sprintf("u%d", infOf[op.U]) {
 						fail("unit %d: handler %d got run info %q, want u%d", op.U, e.H, e.Name, infOf[op.U])
 					}
-					if (op.T == 3 || op.T == 4) && e.Full && e.Payload != "abc" {
-						fail("unit %d: handler %d read %q from its copy, want \"abc\"", op.U, e.H, e.Payload)
+					if (op.T == 3 || op.T == 4) && e.Full && e.Payload != pay+"bc" {
+						fail("unit %d: handler %d read %q from its copy, want %q", op.U, e.H, e.Payload, pay+"bc")
+					}
+					if op.T <= 2 && strings.TrimPrefix(e.Payload, "payload:") != pay {
+						fail("unit %d: handler %d was handed the payload %q, On was called with %q", op.U, e.H, e.Payload, pay)
 					}
 				}
 				s.mu.Unlock()
@@ -424,16 +428,27 @@ func runScript(c *Case) lib.Result {
 			ops = append(ops, fmt.Sprintf("OOn %d %s", op.U, timingName[op.T]))
 		}
 	}
-	var evs []string
+	var evs, pays []string
 	for _, e := range obs.Events {
 		evs = append(evs, fmt.Sprintf("(%d, %d, %d, %d)", e.U, e.H, e.T, parseInfo(e.Name)))
+		// which On call's payload the handler was handed (0: a stream copy it did not read to the end)
+		id := 0
+		if e.Full || e.T <= 2 {
+			var k int
+			if _, err := fmt.Sscanf(strings.TrimPrefix(e.Payload, "payload:"), "p%d|", &k); err == nil {
+				id = k
+			} else {
+				id = 999999
+			}
+		}
+		pays = append(pays, fmt.Sprint(id))
 	}
 	var fin []string
 	for _, u := range order {
 		fin = append(fin, fmt.Sprintf("(%d, %s)", u, nlist(obs.Final[u])))
 	}
-	res.CoqTerm = fmt.Sprintf("CaseScript %s %s\n  [%s]\n  [%s]\n  [%s]", nlist(c.Globals), coqNeeds(c.Handlers),
-		strings.Join(ops, "; "), strings.Join(evs, "; "), strings.Join(fin, "; "))
+	res.CoqTerm = fmt.Sprintf("CaseScript %s %s\n  [%s]\n  [%s]\n  [%s]\n  [%s]", nlist(c.Globals), coqNeeds(c.Handlers),
+		strings.Join(ops, "; "), strings.Join(evs, "; "), strings.Join(pays, "; "), strings.Join(fin, "; "))
 	maxSib := 0
 	for _, n := range sib {
 		if n > maxSib {
